@@ -112,10 +112,16 @@ class Session:
             statuses = sorted(items)
             if ndocs < len(statuses):
                 raise tlc.MachineryError("not enough documents (%d) for item statuses %s" % (ndocs, statuses))
+            # the order of the failed items and their position among successful ones vary with the variant
+            rot = var % len(statuses)
+            statuses = statuses[rot:] + statuses[:rot]
+            if var % 2:
+                statuses.reverse()
+            first = (var // 2) % (ndocs - len(statuses) + 1)
             body_items = []
             for j in range(ndocs):
-                if j < len(statuses):
-                    st = statuses[j]
+                if first <= j < first + len(statuses):
+                    st = statuses[j - first]
                     body_items.append({"index": {"_id": str(j), "status": st, "error": {"type": _item_token(st), "reason": "scripted %d" % n}}})
                 else:
                     body_items.append({"index": {"_id": str(j), "status": 201, "result": "created"}})
@@ -369,15 +375,21 @@ def paths_from_dump(out, cfg_name, rnd, chooser):
     out.add_tlc(res)
     if not res.ok:
         raise tlc.MachineryError("model violates %s in %s: %s" % (res.invariant_violated, cfg_name, res.out[-1500:]))
-    cases = []
+    paths = []
     n_states = 0
-    for st in parse_dump(dump + ".dump" if os.path.exists(dump + ".dump") else dump):
+    for st in parse_dump(dump + ".dump" if os.path.exists(dump + ".dump") else dump, skip_containing='k |-> "running"'):
         n_states += 1
+        if st is None:
+            continue  # a proper prefix of other paths
         if st["status"]["k"] == "running":
-            continue
+            raise tlc.MachineryError("running state not skipped")
+        if str(st["kind"]) in chooser.by_kind:
+            paths.append(st)
+    # TLC's workers write the dump in a run-dependent order: sort before any seeded choice is made
+    paths.sort(key=lambda st: (st["kind"], [(c["o"]["k"], c["o"]["code"], sorted(c["o"]["items"]), c["r"]) for c in st["calls"]]))
+    cases = []
+    for st in paths:
         kind = str(st["kind"])
-        if kind not in chooser.by_kind:
-            continue
         script = _script_from_state(st, rnd)
         cases.append({"src": "tlc-paths", "op": chooser.next(kind), "kind": kind, "script": script, "ndocs": _ndocs(script, kind, rnd)})
     out.note("%s: %d states (depth %d, %.1fs) -> %d complete paths" % (cfg_name, n_states, res.depth, res.wall_s, len(cases)))
@@ -471,14 +483,38 @@ def random_cases(seed, n, ops):
 # ---------------------------------------------------------------------------------------------------
 def _signature(case, item, clauses):
     calls = item["calls"]
-    last = calls[-1]["o"] if calls else {"k": "-", "code": 0, "items": []}
-    return {
-        "clauses": sorted(clauses),
-        "kind": case["kind"],
-        "last_outcome": "%s%s" % (last["k"], (":%d" % last["code"]) if last["code"] else (":" + "+".join(map(str, last["items"]))) if last["items"] else ""),
-        "finished": item["st"]["k"],
-        "n_calls_over_budget": len(calls) > 11,
-    }
+    if calls:
+        o = calls[-1]["o"]
+        if o["k"] == "api":
+            last = "api:%d" % o["code"]
+        elif o["k"] == "bulk":
+            last = "bulk:" + ("transient-items" if all(c in TRANSIENT_CODES for c in o["items"]) else "non-retryable-item")
+        else:
+            last = o["k"]
+    else:
+        last = "-"
+    return {"clauses": sorted(clauses), "kind": case["kind"], "last_outcome": last, "finished": item["st"]["k"], "n_calls": min(len(calls), 12) if len(calls) >= 10 else "<10"}
+
+
+SITUATIONS = {}
+
+
+def _outcome_class(o):
+    k, code, items = o[0], o[1], o[2]
+    if k == "api":
+        return "api-transient" if code in TRANSIENT_CODES else "api-%d" % code if code in (401, 403) else "api-other"
+    if k == "bulk":
+        return "bulk-transient" if all(c in TRANSIENT_CODES for c in items) else "bulk-non-retryable"
+    return k
+
+
+def _count_situations(case):
+    """(operation, outcome class, number of preceding retries: 0 / 1..9 / 10) of every scripted invocation that the property allows to happen."""
+    for j, o in enumerate(case["script"][:11]):
+        key = (case["op"], _outcome_class(o), "0" if j == 0 else "10" if j == 10 else "1-9")
+        SITUATIONS[key] = SITUATIONS.get(key, 0) + 1
+        if not _is_transient(o):
+            break
 
 
 def run_cases(cases, out, label, chunk=20000):
@@ -486,6 +522,7 @@ def run_cases(cases, out, label, chunk=20000):
     index = {}
     for ci, case in enumerate(cases):
         item, detail = execute(case)
+        _count_situations(case)
         item["id"] = "%s-%d" % (label, ci)
         items.append(item)
         index[item["id"]] = (case, item, detail)
@@ -554,19 +591,20 @@ def run(ctx, out):
         raise tlc.MachineryError("self-test failed: a loop with one retry more than documented does not violate PropertyHolds in the model")
     out.extra["model_selftest"] = "variant with CodeMaxRetries = DocRetries + 1 violates PropertyHolds in the model, as expected"
     # ---- S2C
-    cases = paths_from_dump(out, "Guarded.quick.cfg", rnd, chooser)
+    cases = paths_from_dump(out, "Guarded.quick.cfg" if quick else "Guarded.thorough.cfg", rnd, chooser)
     out.exhaustive = True
-    if not quick:
-        pass
     items = run_cases(cases, out, "path")
     longest = max(range(len(cases)), key=lambda i: len(items[i]["calls"]))
     out.sample({"source": "tlc-paths", "op": cases[longest]["op"], "script": cases[longest]["script"], "recorded": items[longest]})
     cover = edge_cover(ops, rnd)
+    if not quick:
+        for _ in range(4):
+            cover += edge_cover(ops, rnd)
     out.note("leg S2C: edge cover %d cases over %d operations" % (len(cover), len(ops)))
     items = run_cases(cover, out, "edge")
     pick = next(i for i, c in enumerate(cover) if c["kind"] == "bulk" and len(c["script"]) >= 3)
     out.sample({"source": "edge-cover", "op": cover[pick]["op"], "script": cover[pick]["script"], "recorded": items[pick]})
-    sims = behaviours_from_sim(ctx, out, 3000 if quick else 40000, rnd, chooser)
+    sims = behaviours_from_sim(ctx, out, 1500 if quick else 40000, rnd, chooser)
     out.note("leg S2C: %d TLC -simulate behaviours" % len(sims))
     items = run_cases(sims, out, "sim")
     # ---- cases not derived from TLC
@@ -578,6 +616,18 @@ def run(ctx, out):
         per_op[c["op"]] = per_op.get(c["op"], 0) + 1
     out.extra["executions_per_operation"] = per_op
     out.note("leg C2S: %d executions validated by TLC" % out.traces_validated)
+    classes = ["ok", "connTimeout", "connError", "transportOther", "api-transient", "api-401", "api-403", "api-other"]
+    want = [(op, cl, b) for op, kind in sorted(ops.items()) for cl in classes + (["bulk-transient", "bulk-non-retryable"] if kind != "plain" else []) for b in ("0", "1-9", "10")]
+    missing = [w for w in want if not SITUATIONS.get(w)]
+    out.extra["situations_exercised"] = "%d of %d (operation x outcome class x preceding retries 0 / 1-9 / 10), least often: %d executions" % (
+        len(want) - len(missing),
+        len(want),
+        min([SITUATIONS.get(w, 0) for w in want] or [0]),
+    )
+    if missing:
+        out.vacuous.append("situations never exercised on the implementation: %s" % missing[:5])
+    # report the smallest failing case of every kind first
+    out.violations.sort(key=lambda v: (len(v.case["script"]), len(repr(v.case)), repr(v.case)))
 
 
 def replay(ctx, case):
